@@ -508,6 +508,117 @@ def adt_fields(crate, path):
     return a['variants'][0]['fields']
 
 
+class Names:
+    """Private field / variant names looked up by what they hold (types), never assumed: renaming them must not matter."""
+    MB = 'cadence::builder::MetricBuilder'
+    ME = 'cadence::types::MetricError'
+    QB = 'cadence::sinks::queuing::QueuingMetricSinkBuilder'
+
+    def __init__(self, cad):
+        self.cad = cad
+        self.mb_repr, self.mb_enum = self._enum_field(self.MB)
+        self.v_success = self._variant(self.mb_enum, lambda ty: 'MetricFormatter' in ty)
+        self.v_error = self._variant(self.mb_enum, lambda ty: ty == self.ME)
+        self.me_repr, self.me_enum = self._enum_field(self.ME)
+        self.v_io = self._variant(self.me_enum, lambda ty: ty == 'std::io::error::Error')
+        self.v_desc = self._variant(self.me_enum, lambda ty: ty.endswith('ErrorKind'))
+        self.qb_capacity = self.field(self.QB, lambda ty: ty.replace(' ', '') == 'core::option::Option<usize>')
+        self.qb_handler = self.field(self.QB, lambda ty: 'dyncore::ops::function::Fn(std::io::error::Error)' in ty.replace(' ', ''))
+
+    def field(self, adt, pred):
+        hits = [f['name'] for f in adt_fields(self.cad, adt) or [] if pred(f['ty'])]
+        return hits[0] if len(hits) == 1 else None
+
+    def _enum_field(self, adt):
+        for f in adt_fields(self.cad, adt) or []:
+            h = type_head(f['ty'])
+            if h in self.cad.adts and self.cad.adts[h]['kind'] == 'Enum':
+                return f['name'], h
+        return None, None
+
+    def _variant(self, enum, pred):
+        a = self.cad.adts.get(enum) if enum else None
+        if not a:
+            return None
+        hits = [v['name'] for v in a['variants'] if any(pred(f['ty']) for f in v['fields'])]
+        return hits[0] if len(hits) == 1 else None
+
+    # ---- private / crate-private functions by role (signature + what they build), never by name
+    def inherent(self, adt):
+        return [b for b in self.cad.all_bodies if b.impl_self and type_head(b.impl_self) == adt and b.impl_trait is None and b.def_kind == 'AssocFn']
+
+    @staticmethod
+    def param_heads(b):
+        return [type_head(b.locals[i]) for i in range(1, b.arg_count + 1)]
+
+    def constructors(self, adt):
+        """inherent functions returning `adt` (or Result/tuple containing it is not considered) that take no `adt` value"""
+        return [b for b in self.inherent(adt) if type_head(b.locals[0]) == adt and adt not in self.param_heads(b)]
+
+    def _one(self, xs):
+        return xs[0] if len(xs) == 1 else None
+
+    def _memo(self, key, fn):
+        c = self.__dict__.setdefault('_fn_memo', {})
+        if key not in c:
+            c[key] = fn()
+        return c[key]
+
+    @property
+    def mb_from_fmt(self):
+        """the MetricBuilder constructor taking the formatter by value"""
+        return self._memo('mb_from_fmt', lambda: self._one([b for b in self.constructors(self.MB) if any('MetricFormatter' in h or h == self.formatter for h in self.param_heads(b))]))
+
+    @property
+    def formatter(self):
+        def f():
+            a = self.cad.adts.get(self.mb_enum)
+            for v in (a or {}).get('variants', []):
+                if v['name'] == self.v_success:
+                    for fl in v['fields']:
+                        h = type_head(fl['ty'])
+                        if h in self.cad.adts and h.startswith('cadence::builder::'):
+                            return h
+            return None
+        return self._memo('formatter', f)
+
+    @property
+    def mb_from_error(self):
+        """the MetricBuilder constructor taking a MetricError"""
+        return self._memo('mb_from_error', lambda: self._one([b for b in self.constructors(self.MB) if self.ME in self.param_heads(b)]))
+
+    @property
+    def scb_new(self):
+        SCB = 'cadence::client::StatsdClientBuilder'
+        return self._memo('scb_new', lambda: self._one(self.constructors(SCB)))
+
+    @property
+    def sc_from_builder(self):
+        SC, SCB = 'cadence::client::StatsdClient', 'cadence::client::StatsdClientBuilder'
+        return self._memo('sc_from_builder', lambda: self._one([b for b in self.constructors(SC) if SCB in self.param_heads(b)]))
+
+    @property
+    def mv_count(self):
+        MV = 'cadence::builder::MetricValue'
+        return self._memo('mv_count', lambda: self._one([b for b in self.inherent(MV) if b.locals[0] == 'usize' and self.param_heads(b) == [MV]]))
+
+    def string_field(self, adt):
+        return self.field(adt, lambda ty: ty == 'alloc::string::String')
+
+    def missing(self):
+        return [k for k in ('mb_repr', 'v_success', 'v_error', 'me_repr', 'v_io', 'qb_capacity', 'qb_handler') if getattr(self, k) is None]
+
+
+def names(cad):
+    n = getattr(cad, '_names', None)
+    if n is None:
+        n = cad._names = Names(cad)
+    return n
+
+
+role_names = names
+
+
 def _role_of_type(ty):
     ty = ty.replace(' ', '')
     if 'dyncadence::sinks::core::MetricSink' in ty:
